@@ -82,7 +82,7 @@ package py
 
 // ---- exceptions and line table (C02, C05) ----
 
-//@ ghost lasterr object
+//@ ghost lasterr object local
 
 //@ func (*Code).Addr2Line(co, addrq) (line)
 //@   trusted
@@ -121,3 +121,42 @@ package py
 //@ func MakeException(r) (e)
 //@   trusted
 //@   ensures nn: e != nil
+
+// ---- iteration protocol (C05): what a consumer of Next does with the error it gets ----
+// lasterr[0] is activation-local: the error returned by the last Next call made by this activation (nil at entry).
+
+//@ spec nextStopped() bool = lasterr[0] != nil && excmatch(StopIteration, lasterr[0])
+//@ spec nextFailed() bool = lasterr[0] != nil && !excmatch(StopIteration, lasterr[0])
+
+//@ func Iterate(obj, fn) (err)
+//@   requires nn: obj != nil
+//@   modifies *
+//@   ensures fail: nextFailed() ==> err == lasterr[0]
+//@   ensures stop: nextStopped() ==> err == nil
+
+//@ func (String).Join(s, args) (r, err)
+//@   modifies *
+//@   ensures fail: nextFailed() ==> err == lasterr[0]
+//@   ensures stop: nextStopped() ==> err == nil
+//@   loop 1 (err)
+//@     invariant last: lasterr[0] == err
+
+//@ func (*Filter).M__next__(f) (r, err)
+//@   modifies *
+//@   ensures prop: lasterr[0] != nil ==> err == lasterr[0] && r == nil
+
+//@ func (*EnumerateIterator).M__next__(ei) (r, err)
+//@   modifies *
+//@   ensures prop: lasterr[0] != nil ==> err == lasterr[0] && r == nil
+
+//@ func (*Map).M__next__(m) (r, err)
+//@   modifies *
+//@   ensures prop: lasterr[0] != nil ==> err == lasterr[0] && r == nil
+//@   loop 1 (i)
+//@     invariant nolast: lasterr[0] == nil
+
+//@ func (*Zip).M__next__(z) (r, err)
+//@   modifies *
+//@   ensures prop: lasterr[0] != nil ==> err == lasterr[0] && r == nil
+//@   loop 1 (i)
+//@     invariant nolast: lasterr[0] == nil
